@@ -178,7 +178,7 @@ func Run(t *testing.T, cfg Config, root func()) (res *Result) {
 		cfg.SiteMask = ^uint64(0)
 	}
 	if cfg.NoProgressYields == 0 {
-		cfg.NoProgressYields = 20_000_000
+		cfg.NoProgressYields = 3_000_000
 	}
 	s := &Sim{cfg: cfg}
 	for i := range s.rng {
